@@ -675,7 +675,10 @@ func (e *Env) sel(v *SV, name string) *SV {
 				f := su.Field(i)
 				k := c.fieldHeapKey(sn, f.Name())
 				h := c.heapGet(e.st, k, "(Array Int "+c.sortOf(f.Type())+")")
-				return &SV{S: "(select " + h + " " + v.S + ")", T: f.Type()}
+				c.entryHeapTyped(k, "(Array Int "+c.sortOf(f.Type())+")", f.Type())
+				term := "(select " + h + " " + v.S + ")"
+				c.noteTyped(term, f.Type(), e.st.alloc)
+				return &SV{S: term, T: f.Type()}
 			}
 		}
 		// embedded struct promotion (one level)
@@ -702,13 +705,73 @@ func (e *Env) sel(v *SV, name string) *SV {
 	return nil
 }
 
+// entryHeapTyped states (once per field heap, as a quantified axiom with a pattern) that the entry
+// heap of a field is well typed and closed: values are in the range of the field's Go type and every
+// reference stored in it was allocated before the call.
+func (c *Ctx) entryHeapTyped(key, sort string, t types.Type) {
+	if c.sideFact == nil || c.entryTyped[key] || opaqueStruct(t) {
+		return
+	}
+	if _, isStruct := t.Underlying().(*types.Struct); isStruct {
+		return
+	}
+	if c.entryTyped == nil {
+		c.entryTyped = map[string]bool{}
+	}
+	c.entryTyped[key] = true
+	h0 := c.heapInit(key, sort)
+	term := "(select " + h0 + " r!)"
+	var parts []string
+	if rf := c.rangeFact(term, t); rf != "" {
+		parts = append(parts, rf)
+	}
+	switch t.Underlying().(type) {
+	case *types.Pointer, *types.Map:
+		parts = append(parts, "(<= "+term+" alloc!0)")
+	case *types.Slice:
+		parts = append(parts, "(<= (s-ref "+term+") alloc!0)")
+	}
+	if len(parts) == 0 {
+		return
+	}
+	c.uses["quant"] = true
+	c.axioms = append(c.axioms, fmt.Sprintf("(forall ((r! Int)) (! %s :pattern (%s)))", and(parts...), term))
+}
+
+// noteTyped hands the generator the fact that a ground heap read in a specification has a value of
+// its Go type (heaps are well typed: every store writes a wrapped / range-checked value).
+func (c *Ctx) noteTyped(term string, t types.Type, alloc string) {
+	if c.sideFact == nil || strings.Contains(term, "k!") {
+		return
+	}
+	for _, pre := range []string{"q.", "a.", "hp."} {
+		if strings.HasPrefix(term, pre) || strings.Contains(term, " "+pre) || strings.Contains(term, "("+pre) {
+			return // bound variable of a quantifier or of a spec function definition
+		}
+	}
+	key := term + "@" + alloc
+	if c.sideSeen[key] {
+		return
+	}
+	if c.sideSeen == nil {
+		c.sideSeen = map[string]bool{}
+	}
+	c.sideSeen[key] = true
+	c.sideFact(term, t, alloc)
+}
+
 func (e *Env) index(v, i *SV) *SV {
 	c := e.c
 	switch u := v.T.Underlying().(type) {
 	case *types.Slice:
 		k, s := c.elemHeap(c.sortOf(u.Elem()))
 		h := c.heapGet(e.st, k, s)
-		return &SV{S: fmt.Sprintf("(select (select %s (s-ref %s)) (+ (s-off %s) %s))", h, v.S, v.S, i.S), T: u.Elem()}
+		term := fmt.Sprintf("(select (select %s (s-ref %s)) (+ (s-off %s) %s))", h, v.S, v.S, i.S)
+		switch u.Elem().Underlying().(type) {
+		case *types.Basic, *types.Pointer, *types.Map, *types.Slice:
+			c.noteTyped(term, u.Elem(), e.st.alloc)
+		}
+		return &SV{S: term, T: u.Elem()}
 	case *types.Array:
 		return &SV{S: "(select " + v.S + " " + i.S + ")", T: u.Elem()}
 	case *types.Basic:
@@ -1076,6 +1139,26 @@ func (e *Env) call(x *ECall) *SV {
 			parts = append(parts, fmt.Sprintf("(forall ((r! Int) (j! Int)) (! (=> (not (and (= r! (s-ref %[1]s)) (<= (+ (s-off %[1]s) %[2]s) j!) (< j! (+ (s-off %[1]s) %[3]s)))) (= (select (select %[4]s r!) j!) (select (select %[5]s r!) j!))) :pattern ((select (select %[4]s r!) j!))))", b.S, arg(2).S, arg(3).S, cur, old))
 		}
 		return e.boolSV(and(parts...))
+	case "keptExcept":
+		// keptExcept(<heap designator>, b, lo, hi): every array that existed on entry is unchanged in the
+		// element heap, except possibly b[lo:hi] (arrays allocated during the call are not constrained)
+		if e.old == nil {
+			specFail("keptExcept() needs an entry state")
+		}
+		con := &Contract{Modifies: []string{x.Args[0].String()}}
+		b := arg(1)
+		var parts []string
+		for _, k := range sortedKeys(c.modifiesKeys(con, e.pkg)) {
+			cur := c.heapGet(e.st, k, c.heapSortsM[k])
+			old := c.heapGet(e.old, k, c.heapSortsM[k])
+			c.uses["quant"] = true
+			exc := fmt.Sprintf("(and (= r! (s-ref %[1]s)) (<= (+ (s-off %[1]s) %[2]s) j!) (< j! (+ (s-off %[1]s) %[3]s)))", b.S, arg(2).S, arg(3).S)
+			parts = append(parts, fmt.Sprintf("(forall ((r! Int) (j! Int)) (! (=> (and (<= r! %[4]s) (not %[1]s)) (= (select (select %[2]s r!) j!) (select (select %[3]s r!) j!))) :pattern ((select (select %[2]s r!) j!))))", exc, cur, old, e.old.alloc))
+			if c.assuming != "" && cur != old {
+				c.presRels = append(c.presRels, presRel{cur: cur, old: old, alloc: e.old.alloc, reach: c.assuming, except: exc})
+			}
+		}
+		return e.boolSV(and(parts...))
 	case "bytestr":
 		// bytestr(b): the string with the bytes of slice b
 		c.declBytestr()
@@ -1111,6 +1194,9 @@ func (e *Env) call(x *ECall) *SV {
 			old := c.heapGet(e.old, k, c.heapSortsM[k])
 			c.uses["quant"] = true
 			parts = append(parts, fmt.Sprintf("(forall ((r! Int)) (! (=> (<= r! %s) (= (select %s r!) (select %s r!))) :pattern ((select %s r!))))", e.old.alloc, cur, old, cur))
+			if c.assuming != "" && cur != old {
+				c.presRels = append(c.presRels, presRel{cur: cur, old: old, alloc: e.old.alloc, reach: c.assuming})
+			}
 		}
 		return e.boolSV(and(parts...))
 	case "sref":
@@ -1119,6 +1205,28 @@ func (e *Env) call(x *ECall) *SV {
 		return e.intSV("(s-cap " + arg(0).S + ")")
 	case "soff":
 		return e.intSV("(s-off " + arg(0).S + ")")
+	case "fieldaddr":
+		// fieldaddr(p, "f"): symbolic address of field f (of an opaque library type such as
+		// sync/atomic.Bool) inside *p; the same term the generator passes as receiver for p.f.M()
+		v := arg(0)
+		pt, ok := v.T.Underlying().(*types.Pointer)
+		if !ok {
+			specFail("fieldaddr needs a pointer to a struct")
+		}
+		stt, ok := pt.Elem().Underlying().(*types.Struct)
+		if !ok {
+			specFail("fieldaddr needs a pointer to a struct")
+		}
+		fname := typeArgName(x.Args[1])
+		for i := 0; i < stt.NumFields(); i++ {
+			if stt.Field(i).Name() == fname {
+				ft := stt.Field(i).Type()
+				fn := "addr." + sanitize(ft.String())
+				c.declareFun(fn, []string{"Int", "Int"}, "Int")
+				return &SV{S: fmt.Sprintf("(%s %s %d)", fn, v.S, i), T: types.NewPointer(ft)}
+			}
+		}
+		specFail("fieldaddr: no field %s", fname)
 	case "typeis":
 		// typeis(x, T): dynamic type of interface x is T
 		v := arg(0)
@@ -1300,7 +1408,20 @@ func (c *Ctx) defineSpec(sf *SpecFunc, spkg *types.Package, resT types.Type) *sp
 			inst.recAxiom = fmt.Sprintf("(forall (%s) (! (= %s %s) :pattern (%s)))", strings.Join(append(hp, params...), " "), app, bodyS, app)
 		}
 	} else {
-		c.decls = append(c.decls, fmt.Sprintf("(define-fun spec.%s (%s) %s %s)", sf.Name, strings.Join(append(hp, params...), " "), rs, bodyS))
+		def := fmt.Sprintf("(define-fun spec.%s (%s) %s %s)", sf.Name, strings.Join(append(hp, params...), " "), rs, bodyS)
+		c.decls = append(c.decls, def)
+		if hasQuant(bodyS) {
+			// the quantifier-free ("light") queries see such a function as uninterpreted
+			var sorts []string
+			for _, hk := range inst.heaps {
+				sorts = append(sorts, c.heapSortsM[hk])
+			}
+			sorts = append(sorts, psorts...)
+			if c.qfAlt == nil {
+				c.qfAlt = map[string]string{}
+			}
+			c.qfAlt[def] = fmt.Sprintf("(declare-fun spec.%s (%s) %s)", sf.Name, strings.Join(sorts, " "), rs)
+		}
 	}
 	for _, ax := range sf.Axioms {
 		st := newState()
